@@ -631,3 +631,113 @@ func (c *C18Ctx) Clone() *C18Ctx {
 	}
 	return n
 }
+
+// ---------------------------------------------------------------------------------------------
+// names whose concatenations collide
+
+// C18Collisions: type / relation / condition names with '-', '_', '.' and names that are prefixes of
+// each other, arranged so that "type<sep>relation" of a TUPLESET relation equals that of an ordinary
+// relation with wildcard and userset restrictions (and the other way round): anything keyed by a
+// joined string instead of the pair would mix them up.
+func C18Collisions(r *rec.Rand) *C18Model {
+	s := &Scenario{Conds: []string{"cn", "cn-1", "cnn"}}
+	m := &C18Model{S: s, Shape: "name-collisions"}
+	for k, n := range s.Conds {
+		ps, ex := c18Template(r, []int{0, 8, 1}[k])
+		m.Conds = append(m.Conds, C18Cond{Name: n, Params: ps, Expr: ex})
+	}
+	open := func(extra ...Restr) []Restr {
+		return append([]Restr{RObj("user"), RWild("user"), RSet("folder", "viewer")}, extra...)
+	}
+	doc := TypeDef{Name: "doc", Rels: []RelDef{
+		{Name: "viewer", RW: Union(This(), TTU("ext-parent", "viewer"), TTU("ext_parent", "viewer"), TTU("ext.parent", "viewer")), Restr: []Restr{RObj("user")}},
+		{Name: "parent", RW: This(), Restr: open()},
+	}}
+	for _, sep := range []string{"-", "_", "."} {
+		// doc#ext<sep>parent is a tupleset; doc<sep>ext#parent is ordinary
+		doc.Rels = append(doc.Rels, RelDef{Name: "ext" + sep + "parent", RW: This(), Restr: []Restr{RObj("folder"), RObj("folder").With("cn")}})
+	}
+	s.Types = []TypeDef{{Name: "user"},
+		{Name: "folder", Rels: []RelDef{{Name: "viewer", RW: This(), Restr: []Restr{RObj("user"), RWild("user").With("cn-1")}}}},
+		doc}
+	for _, sep := range []string{"-", "_", "."} {
+		s.Types = append(s.Types, TypeDef{Name: "doc" + sep + "ext", Rels: []RelDef{
+			{Name: "parent", RW: This(), Restr: open(RWild("user").With("cnn"))},
+			{Name: "viewer", RW: This(), Restr: []Restr{RObj("user")}},
+		}})
+		// the other way round: org#unit<sep>owner ordinary, org<sep>unit#owner a tupleset
+		s.Types = append(s.Types, TypeDef{Name: "org" + sep + "unit", Rels: []RelDef{
+			{Name: "owner", RW: This(), Restr: []Restr{RObj("folder")}},
+			{Name: "viewer", RW: TTU("owner", "viewer")},
+		}})
+	}
+	org := TypeDef{Name: "org"}
+	for _, sep := range []string{"-", "_", "."} {
+		org.Rels = append(org.Rels, RelDef{Name: "unit" + sep + "owner", RW: This(), Restr: open()})
+	}
+	// prefixes of each other
+	org.Rels = append(org.Rels, RelDef{Name: "own", RW: This(), Restr: []Restr{RObj("user")}},
+		RelDef{Name: "owner", RW: This(), Restr: []Restr{RWild("user")}},
+		RelDef{Name: "owners", RW: This(), Restr: []Restr{RSet("folder", "viewer")}})
+	s.Types = append(s.Types, org)
+	return m
+}
+
+// C18Rename renames the types (except user), relations and conditions of a model injectively into
+// a pool of separator-rich names (a, a-b, a-b-c, ... / b-c, c, c-d, ...): a standing ingredient.
+func C18Rename(r *rec.Rand, m *C18Model) {
+	tpool := []string{"a", "a-b", "a-b-c", "a_b", "a.b", "ab", "a-", "a--b"}
+	rpool := []string{"b-c", "c", "b", "b-c-d", "c-d", "d", "b_c", "b.c", "bc", "a-b", "-c", "b--c", "-b-c"}
+	cpool := []string{"cn", "cn-1", "cnn", "c-n"}
+	rec.Shuffle(r, tpool)
+	rec.Shuffle(r, rpool)
+	rec.Shuffle(r, cpool)
+	tm, rm, cm := map[string]string{"user": "user"}, map[string]string{}, map[string]string{}
+	mapName := func(mp map[string]string, pool *[]string, n string) string {
+		if n == "" {
+			return n
+		}
+		if v, ok := mp[n]; ok {
+			return v
+		}
+		if len(*pool) == 0 {
+			mp[n] = n
+			return n
+		}
+		mp[n] = (*pool)[0]
+		*pool = (*pool)[1:]
+		return mp[n]
+	}
+	s := m.S
+	done := map[*Rewrite]bool{}
+	for i := range s.Types {
+		s.Types[i].Name = mapName(tm, &tpool, s.Types[i].Name)
+	}
+	for i := range s.Types {
+		for j := range s.Types[i].Rels {
+			rd := &s.Types[i].Rels[j]
+			rd.Name = mapName(rm, &rpool, rd.Name)
+			rd.RW.Walk(func(x *Rewrite) {
+				if done[x] {
+					return
+				}
+				done[x] = true
+				x.Rel = mapName(rm, &rpool, x.Rel)
+				x.Tupleset = mapName(rm, &rpool, x.Tupleset)
+			})
+			for k := range rd.Restr {
+				rd.Restr[k].Type = mapName(tm, &tpool, rd.Restr[k].Type)
+				rd.Restr[k].Rel = mapName(rm, &rpool, rd.Restr[k].Rel)
+				rd.Restr[k].Cond = mapName(cm, &cpool, rd.Restr[k].Cond)
+			}
+		}
+	}
+	for i := range s.Conds {
+		s.Conds[i] = mapName(cm, &cpool, s.Conds[i])
+	}
+	for i := range m.Conds {
+		m.Conds[i].Name = mapName(cm, &cpool, m.Conds[i].Name)
+	}
+	s.Tuples = nil
+	m.Shape += "+renamed"
+}
